@@ -35,6 +35,7 @@ structure QInv (cfg : Cfg) (d : DST) (A Lmax : Nat) (oa : List Args) (strict : B
   tg : s.p.toggles = []
   hoa : s.p.openArgs = oa
   sb : ∀ x ∈ s.p.setBufs, GoodBuf cfg d A Lmax oa x.2
+  stin : ∀ e ∈ s.log, StoreIn Lmax e
 
 structure QSame (s s' : St) : Prop where
   p : PSame s s'
@@ -50,16 +51,15 @@ theorem QSame.inv {cfg : Cfg} {d : DST} {A Lmax : Nat} {oa : List Args} {b : Boo
   ⟨h.p.nh.trans hi.nh, by rw [h.p.len]; exact hi.good, by rw [h.p.pkt, h.p.len]; exact hi.pkt,
    by rw [h.p.at_, h.p.len]; exact hi.at_, by rw [h.p.isOpen, h.p.saved, h.p.len]; exact hi.sv,
    by rw [h.p.isOpen, h.p.offc, h.p.at_]; exact hi.oc, by rw [h.p.isOpen, h.p.at_, h.p.len]; exact hi.cl,
-   h.en.trans hi.en, h.tg.trans hi.tg, h.p.oa.trans hi.hoa, by rw [h.p.sb]; exact hi.sb⟩
+   h.en.trans hi.en, h.tg.trans hi.tg, h.p.oa.trans hi.hoa, by rw [h.p.sb]; exact hi.sb,
+   (h.p.sin Lmax).storesIn hi.stin⟩
 
 theorem QSame.ev (s : St) (e : Ev) (h : Neutral e := by exact ⟨fun _ => rfl, fun _ _ => rfl⟩)
     (h2 : ∀ L, StoreIn L e := by intro _; trivial) : QSame s (s.ev e) :=
   ⟨PSame.ev s e h h2, rfl, rfl⟩
 
-/-- the invariant does not look at the log -/
-theorem QInv.ev {cfg : Cfg} {d : DST} {A Lmax : Nat} {oa : List Args} {b : Bool} {s : St} (hi : QInv cfg d A Lmax oa b s)
-    (e : Ev) : QInv cfg d A Lmax oa b (s.ev e) :=
-  ⟨hi.nh, hi.good, hi.pkt, hi.at_, hi.sv, hi.oc, hi.cl, hi.en, hi.tg, hi.hoa, hi.sb⟩
+theorem StoreIn.mono {L L' : Nat} (h : L ≤ L') (e : Ev) (he : StoreIn L e) : StoreIn L' e := by
+  cases e <;> first | trivial | exact Nat.le_trans he h
 theorem QSame.setFlag (s : St) (b : Bool) : QSame s (s.setFlag b) := ⟨PSame.setFlag s b, rfl, rfl⟩
 theorem QSame.setUseCur (s : St) (b : Bool) : QSame s (s.setUseCur b) := ⟨PSame.setUseCur s b, rfl, rfl⟩
 theorem QSame.setCurTs (s : St) (v : Nat) : QSame s (s.setCurTs v) := ⟨PSame.setCurTs s v, rfl, rfl⟩
@@ -155,15 +155,23 @@ theorem openWrite_qinv (b : Bool) (args : Args) (hargs : args ∈ openArgsOf oa)
     have : ∀ (f : SerSt → SerSt) (t : St), (runSer f t).c.isTracingEnabled = t.c.isTracingEnabled := by
       intro f t; unfold runSer installSer; simp only; split <;> rfl
     rw [this]; exact hi.en
-  generalize runSer _ (s.setAt 0) = s2 at r1 r4 r7 hlen hat hsv2 hen
+  have hx : Ext Neutral s (runSer (fun st => serRoot env "pc" d.pcOp args (serRoot env "ph" (DST.phOp cfg) [] st))
+      (s.setAt 0)) :=
+    (Ext.of_log_eq rfl : Ext Neutral s (s.setAt 0)).trans ((runSer_same _ (s.setAt 0)).ext.mono PQuiet.neutral)
+  have hsin : Ext (StoreIn s.buf.length) s (runSer (fun st => serRoot env "pc" d.pcOp args
+      (serRoot env "ph" (DST.phOp cfg) [] st)) (s.setAt 0)) :=
+    (Ext.of_log_eq rfl : Ext (StoreIn s.buf.length) s (s.setAt 0)).trans
+      (runSer_sin s.buf.length _ (fun st h => serRoot_good _ env "pc" _ args _ (serRoot_good _ env "ph" _ [] st h))
+        (s.setAt 0) rfl hpc.1)
+  generalize runSer _ (s.setAt 0) = s2 at r1 r4 r7 hlen hat hsv2 hen hx hsin
   rw [if_neg (by rw [r1]; simp)]
   have h4 : QSame s2 (if d.feat.tsBegin.isSome = true then s2.ev (.tsWrite "begin" ts) else s2) := by
     split
     · exact QSame.ev _ _
     · exact QSame.refl _
   generalize (if d.feat.tsBegin.isSome = true then s2.ev (.tsWrite "begin" ts) else s2) = s3 at h4
-  refine ⟨⟨h4.p.nh.trans r1, ?_, ?_, ?_, ?_, fun _ => Nat.le_refl _, fun _ h => by simp at h, h4.en.trans hen, ?_, ?_, ?_⟩,
-    rfl⟩
+  refine ⟨⟨h4.p.nh.trans r1, ?_, ?_, ?_, ?_, fun _ => Nat.le_refl _, fun _ h => by simp at h, h4.en.trans hen, ?_, ?_, ?_,
+    ?_⟩, rfl⟩
   · show GoodBuf _ _ _ _ _ s3.buf.length; rw [h4.p.len, hlen]; exact hi.good
   · show s3.c.packetSize = 8 * s3.buf.length; rw [h4.p.pkt, h4.p.len, hlen, r4]; exact hi.pkt
   · show s3.c.at_ ≤ 8 * s3.buf.length; rw [h4.p.at_, h4.p.len, hlen]; exact hat
@@ -171,6 +179,11 @@ theorem openWrite_qinv (b : Bool) (args : Args) (hargs : args ∈ openArgsOf oa)
   · show s3.p.toggles = []; rw [h4.tg, r7]; exact hi.tg
   · show s3.p.openArgs = oa; rw [h4.p.oa, r7]; exact hi.hoa
   · show ∀ x ∈ s3.p.setBufs, _; rw [h4.p.sb, r7]; exact hi.sb
+  · intro e he
+    have he' : e ∈ Ev.opened s3.c.at_ :: s3.log := he
+    rcases List.mem_cons.mp he' with rfl | h
+    · trivial
+    · exact ((hsin.trans (h4.p.sin _)).mono (StoreIn.mono hi.good.le)).storesIn hi.stin e h
 
 include hcfg hsmall in
 /-- with tracing enabled, the opening function leaves a packet open -/
@@ -185,7 +198,7 @@ theorem openGuarded_qinv (b : Bool) (args : Args) (hargs : args ∈ openArgsOf o
     have ho' : s.c.packetIsOpen = true := by simpa using ho
     have h2 := ((QSame.setFlag s true).trans (QSame.setFlag (s.setFlag true) s.c.inTracingSection)).inv hi
     exact ⟨⟨h2.nh, h2.good, h2.pkt, h2.at_, h2.sv, h2.oc, fun _ h => by have h' : s.c.packetIsOpen = false := h; rw [ho'] at h'; simp at h',
-      h2.en, h2.tg, h2.hoa, h2.sb⟩, ho'⟩
+      h2.en, h2.tg, h2.hoa, h2.sb, h2.stin⟩, ho'⟩
   · exact openWrite_qinv cfg d A Lmax oa hcfg hsmall b args hargs ts _ _ ((QSame.setFlag s true).inv hi)
 
 include hcfg hsmall in
@@ -213,19 +226,16 @@ theorem cbOpen_qinv (b : Bool) (s : St) (hi : QInv cfg d A Lmax oa b s) :
 def QPlat (cfg : Cfg) (d : DST) (A Lmax : Nat) (oa : List Args) (p : Plat) : Prop :=
   p.toggles = [] ∧ p.openArgs = oa ∧ ∀ x ∈ p.setBufs, GoodBuf cfg d A Lmax oa x.2
 
-theorem QInv.ofClosed {cfg : Cfg} {d : DST} {A Lmax : Nat} {oa : List Args} {s0 s' : St} {L : Nat}
-    (h : PClosed L (QPlat cfg d A Lmax oa) true s0 s') (hg : GoodBuf cfg d A Lmax oa L) :
-    QInv cfg d A Lmax oa true s' ∧ s'.c.packetIsOpen = false :=
-  ⟨⟨h.nh, by rw [h.len]; exact hg, by rw [h.pkt, h.len], by rw [h.at_, h.len]; exact Nat.le_refl _,
-    fun x => by rw [h.isOpen] at x; simp at x, fun x => by rw [h.isOpen] at x; simp at x,
-    fun _ _ => by rw [h.at_, h.len], h.en, h.pp.1, h.pp.2.1, h.pp.2.2⟩, h.isOpen⟩
-
 include hcfg hsmall in
 theorem closeWrite_qinv (ts : Nat) (saved : Bool) (s : St) (hi : QInv cfg d A Lmax oa true s)
     (ho : s.c.packetIsOpen = true) :
-    QInv cfg d A Lmax oa true (closeWrite cfg d ts saved s) ∧ (closeWrite cfg d ts saved s).c.packetIsOpen = false :=
-  QInv.ofClosed (closeWrite_closed cfg d s.buf.length A hcfg (hi.small hsmall) (QPlat cfg d A Lmax oa) true ts saved s
-    hi.nh rfl hi.pkt hi.at_ (hi.sv ho) ho ⟨hi.tg, hi.hoa, hi.sb⟩ hi.en) hi.good
+    QInv cfg d A Lmax oa true (closeWrite cfg d ts saved s) ∧ (closeWrite cfg d ts saved s).c.packetIsOpen = false := by
+  have h := closeWrite_closed cfg d s.buf.length A hcfg (hi.small hsmall) (QPlat cfg d A Lmax oa) true ts saved s
+    hi.nh rfl hi.pkt hi.at_ (hi.sv ho) ho ⟨hi.tg, hi.hoa, hi.sb⟩ hi.en
+  exact ⟨⟨h.nh, by rw [h.len]; exact hi.good, by rw [h.pkt, h.len], by rw [h.at_, h.len]; exact Nat.le_refl _,
+    fun x => by rw [h.isOpen] at x; simp at x, fun x => by rw [h.isOpen] at x; simp at x,
+    fun _ _ => by rw [h.at_, h.len], h.en, h.pp.1, h.pp.2.1, h.pp.2.2,
+    (h.sin.mono (StoreIn.mono hi.good.le)).storesIn hi.stin⟩, h.isOpen⟩
 
 include hcfg hsmall in
 /-- with tracing enabled, the closing function leaves the packet closed -/
@@ -258,7 +268,7 @@ theorem setBuf_qinv (b : Nat) (hb : GoodBuf cfg d A Lmax oa b) (s : St) (hi : QI
   unfold setBuf
   simp only [hu, hat, if_true]
   refine ⟨⟨hi.nh, by simpa using hb, by simp, by simp, fun x => ?_, fun x => ?_, fun _ _ => by simp, hi.en, hi.tg, hi.hoa,
-    hi.sb⟩, hc⟩
+    hi.sb, hi.stin⟩, hc⟩
   · have : s.c.packetIsOpen = true := x
     rw [hc] at this; simp at this
   · have : s.c.packetIsOpen = true := x
@@ -379,9 +389,15 @@ theorem traceWrite_qinv (e : ERT) (he : e ∈ d.erts) (args : Args) (hargs : Arg
       recordEndN d e args s.c.at_ := by rw [r2]; exact hrb.2.1
   have hpk := hp.pkt
   have hatle := hp.at_
+  have hx : Ext Neutral s (runSer (serRecord (serEnvOf cfg d e.id s.c.curLastEventTs s.c) d e args) s) :=
+    (runSer_same _ s).ext.mono PQuiet.neutral
+  have hge1 : s.c.at_ ≤ (runSer (serRecord (serEnvOf cfg d e.id s.c.curLastEventTs s.c) d e args) s).c.at_ := by
+    rw [hat']; exact hle
   have h1 : QInv cfg d A Lmax oa true (runSer (serRecord (serEnvOf cfg d e.id s.c.curLastEventTs s.c) d e args) s) := by
     refine ⟨r1, by rw [hlen]; exact hi.good, by rw [r4, hlen]; exact hi.pkt, by rw [hat', hlen]; omega, ?_, ?_, ?_,
-      r10.trans hi.en, by rw [r7]; exact hi.tg, by rw [r7]; exact hi.hoa, by rw [r7]; exact hi.sb⟩
+      r10.trans hi.en, by rw [r7]; exact hi.tg, by rw [r7]; exact hi.hoa, by rw [r7]; exact hi.sb,
+      ((runSer_sin s.buf.length _ (fun st h => serRecord_good _ _ d e args st h) s rfl hrb.1).mono
+        (StoreIn.mono hi.good.le)).storesIn hi.stin⟩
     · intro ho
       rw [r5, serRecord_saved, hlen]
       exact hi.sv (by rw [← r6]; exact ho)
@@ -392,7 +408,7 @@ theorem traceWrite_qinv (e : ERT) (he : e ∈ d.erts) (args : Args) (hargs : Arg
       rw [hat', hlen]
       have := hi.cl rfl (by rw [← r6]; exact hc)
       omega
-  generalize runSer _ s = s1 at h1
+  generalize runSer _ s = s1 at h1 hx hge1
   split
   · exact h1
   · have h3 : QSame s1 (if d.feat.erTs.isSome = true then s1.ev (.tsWrite "rec" s1.c.curLastEventTs) else s1) := by
@@ -400,7 +416,15 @@ theorem traceWrite_qinv (e : ERT) (he : e ∈ d.erts) (args : Args) (hargs : Arg
       · exact QSame.ev _ _
       · exact QSame.refl _
     generalize (if d.feat.erTs.isSome = true then s1.ev (.tsWrite "rec" s1.c.curLastEventTs) else s1) = s2 at h3
-    have h4 := commit_qinv cfg d A Lmax oa hcfg hsmall _ ((h3.inv h1).ev (.recDone e.name s.c.at_ s2.c.at_))
+    have h2i := h3.inv h1
+    have hrec : QInv cfg d A Lmax oa true (s2.ev (.recDone e.name s.c.at_ s2.c.at_)) :=
+      ⟨h2i.nh, h2i.good, h2i.pkt, h2i.at_, h2i.sv, h2i.oc, h2i.cl, h2i.en, h2i.tg, h2i.hoa, h2i.sb,
+        fun x hx' => by
+          have hx'' : x ∈ Ev.recDone e.name s.c.at_ s2.c.at_ :: s2.log := hx'
+          rcases List.mem_cons.mp hx'' with rfl | h
+          · trivial
+          · exact h2i.stin x h⟩
+    have h4 := commit_qinv cfg d A Lmax oa hcfg hsmall _ hrec
     split
     · exact h4
     · exact (QSame.setFlag _ false).inv h4
@@ -475,7 +499,8 @@ theorem stepOp_qinv (op : Op) (hop : ∀ en args, op = .trace en args → ∀ e 
     | enable b =>
       have hb := hen b rfl
       subst hb
-      exact key "enable" _ ⟨hi.nh, hi.good, hi.pkt, hi.at_, hi.sv, hi.oc, hi.cl, rfl, hi.tg, hi.hoa, hi.sb⟩
+      exact key "enable" _ ⟨hi.nh, hi.good, hi.pkt, hi.at_, hi.sv, hi.oc, hi.cl, rfl, hi.tg, hi.hoa, hi.sb,
+        hi.stin⟩
     | query => exact key "query" _ hi
     | fin =>
       have hfin : QInv cfg d A Lmax oa true (if (s.c.packetIsOpen && !s.c.isEmpty) = true then cbClose cfg d s else s) := by
@@ -506,7 +531,8 @@ theorem runOps_from_init (L : Nat) (p : Plat) (hL : GoodBuf cfg d A Lmax p.openA
     simp only [u32]; have := hL.le; have := hcfg.Apos; omega
   have h0 : QInv cfg d A Lmax p.openArgs false (rtInit L p) := by
     refine ⟨rfl, by simpa [rtInit] using hL, ?_, by simp [rtInit], fun h => by simp [rtInit] at h,
-      fun h => by simp [rtInit] at h, fun h => by simp at h, rfl, htg, rfl, hsb⟩
+      fun h => by simp [rtInit] at h, fun h => by simp at h, rfl, htg, rfl, hsb,
+      fun e he => by simp [rtInit] at he⟩
     show u32 (L * 8) = 8 * (List.replicate L 0).length
     simp [hu]
   have h1 : QInv cfg d A Lmax p.openArgs true (stepOp cfg d .open_ (rtInit L p)) := by
